@@ -14,6 +14,11 @@ chk('C13', 'exploration',
     'Every probe statement of a stated alphabet (all 15 assignment operators x every pool target x typed expressions of depth<=1 quick / <=2 thorough, bare conditions, log, fresh-local assignment, copy-then-modify histories, nested and parameterised calls, in 5 scopes) is executed on the real interpreter between two snapshots of the whole variable pool; any change outside the named target is a violation. Complete within the alphabet, nothing sampled.',
     'Trusts: Go toolchain; the snapshot is taken through VCL log statements, i.e. the interpreter\'s own read path; statements refused with a runtime error are outside the property.')
 
+chk('C01', 'exploration',
+    'bounded-exhaustive enumeration of inputs through the real lexer and the three parser entry points under a deterministic fuel budget',
+    'All byte strings up to length 3 (quick) / 4 (thorough) over a 33-symbol alphabet with one representative per lexer byte class, all token strings up to length 3 over a 117-lexeme alphabet (4 over a 42-lexeme core, thorough), 69 parser-state skeleton holes x all token strings up to length 2 (3 core, thorough) also truncated there, and every token-boundary prefix / single-token deletion / single-token substitution of the example corpus are lexed and parsed as VCL, as snippet and by ParseVCLOrSnippet. Oracle: no panic, no fuel exhaustion (non-termination), result is a tree or a *ParseError, every token and error token is located inside the input and (for verbatim token kinds) the input at that position reads the token text.',
+    'Trusts: Go toolchain; the fuel instrumentation (function-entry and loop-body ticks injected by mc/cmd/instr through go build -overlay); inputs outside the alphabets and longer than the bound are not covered.')
+
 NOT_YET = {i: 'check not built yet in this session (design in DESIGN.md §4); will be claimed once its command exists' for i in ids if i not in CHECKS}
 
 m = {
